@@ -21,6 +21,11 @@
 // Not part of the length-determined list (they need the decode tree of the unchanged file, see the `fields`
 // job in worker.go) but applied by applyMut as well:
 //
+//	runz:<off>:<len>      a long run: len bytes 00 inserted at byte offset off (runo: bytes ff) — lengths at and
+//	                      just beyond internal buffer sizes (512, 4096, 32768, 65536, 524288), `runs` job
+//	v<bit>:<nbits>:<value>:<be|le|ss>   a 16/24/32-bit field set to a value (big endian, little endian, or
+//	                      ID3-style syncsafe 7 bits per byte): a length field made to cover an appended long run
+//	<m1>+<m2>             m1 then m2 (used as `runz:<end>:<len+16>+v…`: append zeros, then point a length field at them)
 //	y<off>:<8 hex>        the 4 bytes at off replaced by a 4-character type string (box / chunk / atom type
 //	                      substitution: every 4-character string literal of the format's Go source, `types` job)
 //	f<bit>:<nbits>:<p>    the nbits (<= 64) of one decoded leaf field replaced: z = 0..0 (zero size/count),
@@ -118,6 +123,12 @@ func enumFamily(n int) []string {
 // mutKind is the family branch of a descriptor (statistics and class keys)
 func mutKind(m string) string {
 	switch {
+	case strings.Contains(m, "+"):
+		return "runlen"
+	case strings.HasPrefix(m, "run"):
+		return "run"
+	case m[0] == 'v':
+		return "value"
 	case m == "id":
 		return "id"
 	case strings.HasPrefix(m, "dup"):
@@ -149,6 +160,13 @@ func mutKind(m string) string {
 func applyMut(base []byte, m string) ([]byte, error) {
 	bad := func() ([]byte, error) { return nil, fmt.Errorf("bad mutation %q for %d bytes", m, len(base)) }
 	n := len(base)
+	if i := strings.IndexByte(m, '+'); i > 0 {
+		b1, err := applyMut(base, m[:i])
+		if err != nil {
+			return nil, err
+		}
+		return applyMut(b1, m[i+1:])
+	}
 	switch {
 	case m == "id":
 		return append([]byte{}, base...), nil
@@ -174,6 +192,53 @@ func applyMut(base []byte, m string) ([]byte, error) {
 		} else {
 			out = append(out, base[:lo]...)
 			out = append(out, base[hi:]...)
+		}
+		return out, nil
+	case strings.HasPrefix(m, "runz:") || strings.HasPrefix(m, "runo:"):
+		ps := strings.Split(m[5:], ":")
+		if len(ps) != 2 {
+			return bad()
+		}
+		off, e1 := strconv.Atoi(ps[0])
+		ln, e2 := strconv.Atoi(ps[1])
+		if e1 != nil || e2 != nil || off < 0 || off > n || ln < 1 || ln > 1<<20 {
+			return bad()
+		}
+		out := make([]byte, n+ln)
+		copy(out, base[:off])
+		if m[3] == 'o' {
+			for i := off; i < off+ln; i++ {
+				out[i] = 0xff
+			}
+		}
+		copy(out[off+ln:], base[off:])
+		return out, nil
+	case m[0] == 'v':
+		ps := strings.Split(m[1:], ":")
+		if len(ps) != 4 {
+			return bad()
+		}
+		bit, e1 := strconv.Atoi(ps[0])
+		nb, e2 := strconv.Atoi(ps[1])
+		val, e3 := strconv.ParseUint(ps[2], 10, 64)
+		if e1 != nil || e2 != nil || e3 != nil || bit < 0 || bit%8 != 0 || (nb != 16 && nb != 24 && nb != 32) || bit+nb > n*8 {
+			return bad()
+		}
+		out := append([]byte{}, base...)
+		nBytes := nb / 8
+		for i := 0; i < nBytes; i++ {
+			var bv byte
+			switch ps[3] {
+			case "be":
+				bv = byte(val >> (8 * (nBytes - 1 - i)))
+			case "le":
+				bv = byte(val >> (8 * i))
+			case "ss":
+				bv = byte(val>>(7*(nBytes-1-i))) & 0x7f
+			default:
+				return bad()
+			}
+			out[bit/8+i] = bv
 		}
 		return out, nil
 	case strings.HasPrefix(m, "rep"):
